@@ -159,7 +159,7 @@ func (r *Registry) Finish(ri *RunInfo) int {
 	for _, o := range r.Obs {
 		rules[o.Rule]++
 		if os.Getenv("GMSA_LIST") != "" {
-			fmt.Printf("OBLIGATION rule=%s construct=%s\n", o.Rule, o.Construct)
+			fmt.Printf("OBLIGATION rule=%s construct=%s status=%s detail=%s\n", o.Rule, o.Construct, o.Status, o.Detail)
 		}
 		switch o.st {
 		case Discharged:
